@@ -370,14 +370,13 @@ impl<T: crate::EventSource> crate::EventSource for TransientSource<T> {
 
     fn unregister(&mut self, poll: &mut crate::Poll) -> crate::Result<()> {
         match &mut self.state {
-            TransientSourceState::Keep(source) | TransientSourceState::Register(source) => {
-                source.unregister(poll)?
-            }
+            TransientSourceState::Keep(source) => source.unregister(poll)?,
             TransientSourceState::Disable(source) => {
                 source.unregister(poll)?;
                 self.state.replace_state(TransientSourceState::Disabled);
             }
-            TransientSourceState::Disabled(_) => (),
+            // These sources are not registered, there is nothing to undo.
+            TransientSourceState::Register(_) | TransientSourceState::Disabled(_) => (),
             TransientSourceState::Remove(source) => {
                 source.unregister(poll)?;
                 self.state.replace_state(|_| TransientSourceState::None);
